@@ -303,8 +303,12 @@ func (l *lexer) backup() {
 
 // peek returns but does not consume the next rune in the input.
 func (l *lexer) peek() rune {
+	// Keep the width of the last rune consumed,
+	// a later backup must undo that rune, not the peeked one.
+	w := l.width
 	r := l.next()
 	l.backup()
+	l.width = w
 	return r
 }
 
